@@ -4,7 +4,7 @@
    (regenerated from the repository's current tree by tools/effects before this file is
    compiled).  What the model can and cannot say is stated at the top of
    model/Concurrency.v. *)
-Require Import Coq.Lists.List Coq.Strings.String.
+Require Import Coq.Lists.List Coq.Strings.String Coq.Bool.Bool.
 Require Import SJ.model.Concurrency SJ.proofs.ConcurrencyProofs SJ.gen.Effects.
 Import ListNotations.
 
@@ -145,9 +145,8 @@ Example reflect_pinned :
 Proof. vm_compute. reflexivity. Qed.
 Print Assumptions reflect_pinned.
 
-(* The only synchronisation is the cancellation poll on ctx.Done(). *)
-Example sync_pinned :
-  map e_fn (filter (fun e => String.eqb (e_kind e) "sync") Effects.effects)
-  = ["(*P/exec.Executor).executeItemOptUnwrapTarget"%string].
+(* The only synchronisation anywhere is a cancellation poll on ctx.Done(). *)
+Example sync_only_ctx_done :
+  forallb (fun e => implb (String.eqb (e_kind e) "sync") (String.eqb (e_class e) "ctx-done")) Effects.effects = true.
 Proof. vm_compute. reflexivity. Qed.
-Print Assumptions sync_pinned.
+Print Assumptions sync_only_ctx_done.
